@@ -297,7 +297,7 @@ impl std::str::FromStr for Relation {
         let mut tokens = tokens.into_iter().peekable();
 
         fn eat_whitespace(tokens: &mut Peekable<impl Iterator<Item = (SyntaxKind, String)>>) {
-            while let Some((WHITESPACE, _)) = tokens.peek() {
+            while let Some((WHITESPACE | NEWLINE, _)) = tokens.peek() {
                 tokens.next();
             }
         }
@@ -366,7 +366,7 @@ impl std::str::FromStr for Relation {
             loop {
                 match tokens.next() {
                     Some((IDENT, s)) => archs.push(s),
-                    Some((WHITESPACE, _)) => {}
+                    Some((WHITESPACE | NEWLINE, _)) => {}
                     Some((R_BRACKET, _)) => break,
                     _ => return Err("Expected architecture name".to_string()),
                 }
@@ -393,7 +393,7 @@ impl std::str::FromStr for Relation {
                             profile.push(BuildProfile::Disabled(profile_name));
                         }
                         Some((IDENT, s)) => profile.push(BuildProfile::Enabled(s)),
-                        Some((WHITESPACE, _)) => {}
+                        Some((WHITESPACE | NEWLINE, _)) => {}
                         _ => return Err("Expected profile name".to_string()),
                     }
                     if let Some((COMMA, _)) = tokens.peek() {
